@@ -1,0 +1,40 @@
+//go:build verif
+// +build verif
+
+// Contracts for the deductive verifier in /verif (govc). Comment-only: no executable code.
+package subjectaccessreview
+
+//@ const SCACHES = &a.caches
+//@ const SPROV = a.clientProvider
+//@ const ownLRU = unbox(smget(SCACHES, box(host)), "*cache.LRUExpireCache")
+
+//@ func NewMultiClusterSubjectAccessReviewAuthorizer props C12
+//@   modifies nothing
+//@   ensures [deny_on_error] typeis(result, "*MultiClusterSubjectAccessReviewAuthorizer") && unbox(result, "*MultiClusterSubjectAccessReviewAuthorizer").decisionOnError == authorizer.DecisionDeny
+//@   ensures [provider] unbox(result, "*MultiClusterSubjectAccessReviewAuthorizer").clientProvider == clientProvider
+
+//@ func convertToSARExtra props C12
+//@   modifies nothing
+//@   loop 0: invariant [t] true
+
+//@ func (*MultiClusterSubjectAccessReviewAuthorizer).subjectAccessReviewFromAttributes props C12
+//@   modifies nothing
+//@   ensures [fresh] result != nil && fresh(result)
+
+//@ func (*MultiClusterSubjectAccessReviewAuthorizer).Authorize$2 props C12
+//@   modifies sarcount, sarclient, sarerr, captured("result")
+//@   ensures [own_client] sarcount > old(sarcount) && sarclient == client && sarerr == result0
+//@   ensures [result_set] result0 == nil ==> local("result") != nil
+
+//@ func (*MultiClusterSubjectAccessReviewAuthorizer).Authorize props C12
+//@   requires [deny_on_error] a.decisionOnError == authorizer.DecisionDeny
+//@   requires [cache_types] forall h string :: {smhas(SCACHES, box(h))} smhas(SCACHES, box(h)) ==> typeis(smget(SCACHES, box(h)), "*cache.LRUExpireCache") && unbox(smget(SCACHES, box(h)), "*cache.LRUExpireCache") != nil
+//@   modifies *
+//@   ensures [cache_types] forall h string :: {smhas(SCACHES, box(h))} smhas(SCACHES, box(h)) ==> typeis(smget(SCACHES, box(h)), "*cache.LRUExpireCache") && unbox(smget(SCACHES, box(h)), "*cache.LRUExpireCache") != nil
+//@   ensures [own_host] defined(host) ==> cfcalls == old(cfcalls) + 1 && cfname[old(cfcalls)] == host
+//@   ensures [own_cluster] defined(host) ==> sarcount >= old(sarcount) && (sarcount > old(sarcount) ==> reg[old(SPROV)][toLower(host)] != nil && clusterOfClient(sarclient) == reg[old(SPROV)][toLower(host)])
+//@   ensures [own_cache] defined(host) ==> lrucount >= old(lrucount) && forall k int :: {lruobj[k]} old(lrucount) <= k && k < lrucount ==> smhas(SCACHES, box(host)) && lruobj[k] == ownLRU
+//@   ensures [cannot_ask] defined(host) ==> cferr[old(cfcalls)] != nil ==> sarcount == old(sarcount) && lrucount == old(lrucount) && result == authorizer.DecisionDeny && result2 != nil
+//@   ensures [no_host] !defined(host) ==> sarcount == old(sarcount) && cfcalls == old(cfcalls) && lrucount == old(lrucount) && result == authorizer.DecisionDeny && result2 != nil
+//@   ensures [error_denies] result2 != nil ==> result == authorizer.DecisionDeny
+//@   ensures [review_error] sarcount > old(sarcount) && sarerr != nil ==> result == authorizer.DecisionDeny && result2 != nil
